@@ -176,7 +176,8 @@ class World(S.WorldComponent):
     prop = "C01"
     theorems = ["sendAll_wire", "markReceived_once", "pop_sound", "C01_receiver_total", "C01_ordered", "C01_unordered",
                 "C01_no_crosstalk", "ppid_roundtrip"]
-    mix = [("reliable", False, 2), ("reliable", True, 1), ("reorder-frag", True, 2), ("reorder-frag", False, 1),
+    ssn_share = 4
+    mix = [("early", False, 2), ("ssnwrap", False, 2), ("reliable", False, 2), ("reliable", True, 1), ("reorder-frag", True, 2), ("reorder-frag", False, 1),
            ("reliable-heavy-loss", False, 2), ("clean", False, 1), ("mixed-pr", False, 1), ("lifecycle", False, 1),
            ("reuse", False, 3), ("reuse", True, 1), ("expiry", False, 3)]
     quick = (54, 240)
